@@ -15,6 +15,30 @@ CLAIMED = {
         ref='DESIGN.md section 7, C11'),
 }
 
+CLAIMED.update({
+    'C12': dict(
+        text='Theorem C12_rows_chunk_independent: for EVERY partition of a text into non-empty pieces and every chunk size >= 1 the Python reader model returns the lines of the whole text '
+             '(LF/CR/CRLF, CRLF across reads = one break, unterminated last line, BOM dropped); proved by invariant + induction, no size bound. The real CSVRecordIterator is tied to the model '
+             'by running it over ALL partitions x ALL chunk sizes of every short text (and byte partitions of multi-byte samples) and comparing records, header and warnings.',
+        note='Trusted: Lean kernel + standard axioms; TextIOWrapper decoding/universal newlines are modelled (CR/CRLF -> LF), tied dynamically; a read returns "" only at EOF.',
+        ref='DESIGN.md section 7, C12'),
+    'C17': dict(
+        text='Theorem C17_like_correct: the token/regex machine produced by like_to_regex matches exactly the SQL LIKE specification for every pattern and every single-line text '
+             '(both Python and JS `.`/`$` semantics); C17_metachars_literal; the real engines are tied by exhaustive short pairs over the 14-symbol alphabet through `select like(a1,a2)`.',
+        note='Trusted: Lean kernel + standard axioms; re.escape/re.compile and JS RegExp implement literal matching (tied dynamically).',
+        ref='DESIGN.md section 7, C17'),
+    'C18': dict(
+        text='One Lean dialect serves both ports: C18_quote_agree / C18_rfc_quote_agree (Python two-step and JS single-condition quoting coincide), C18_readers_same_lines (pull reader and push reader '
+             'see the same physical lines of any file however chunked). Both implementations are run on every case against the one model and against each other.',
+        note='Partial: record-level agreement of the two reader machines (RFC assembly, comments, counters) and header derivation are tied by the correspondence, not yet proved.',
+        ref='DESIGN.md section 7, C18'),
+    'C20': dict(
+        text='Theorems C20_lines_chunk_independent and C20_stream_eq_bulk: for EVERY partition of the decoded text the JS stream reader model processes the lines of the whole text and ends in the '
+             'same state as the bulk reader (records, warnings, error). The real rbql-js reader is tied by running it over ALL byte partitions of every short input, multi-byte samples and 64KiB-crossing files.',
+        note='Trusted: Lean kernel + standard axioms; util.TextDecoder({stream:true}) is a correct incremental decoder (hypothesis GoodPieces; counterexample theorem shows it is needed).',
+        ref='DESIGN.md section 7, C20'),
+})
+
 NOT_YET = {}
 
 
